@@ -20,7 +20,7 @@ type Case struct {
 
 func setup() {
 	c := ev.C()
-	c.Rule = "message sequences over the alphabet {session parameters (5 representative of the 8 mode combinations in the exhaustive scope, all 8 in the random one), election id (zero, low, equal, high), operation (stamped with the session's id / without id / wrong id), the four multi-field combinations, empty message, half-close} on up to 3 concurrently open sessions in every order: exhaustive to total length 3 (quick) / 4 (thorough) over 2 sessions, rapid to length 14 over 3. Oracle: session model with the acceptable status set per violation (code + ModifyRPCErrorDetails reason from gribi.proto and the compliance suite); after every violation: Get, held set, counters, election id and primary unchanged (hooks), no message on any other stream, the other sessions still usable (they go on in the script), session footprint == open sessions. Non-trivial = a violation happened while >=2 sessions were open, or was not the first message of its session; distinct by FNV-64 of the case JSON."
+	c.Rule = "message sequences over the alphabet {session parameters (5 representative of the 8 mode combinations in the exhaustive scope, all 8 in the random one), election id (zero, low, equal, high), operation (stamped with the session's id / without id / wrong id), the four multi-field combinations, empty message, half-close} on up to 3 concurrently open sessions in every order: exhaustive to total length 3 (quick) / 4 (thorough) over 2 sessions, rapid to length 14 over 3. Oracle: session model with the acceptable status set per violation (code + ModifyRPCErrorDetails reason from gribi.proto and the compliance suite); after every violation: Get, held set, counters, election id and primary unchanged (hooks), no message on any other stream, the other sessions still usable (they go on in the script), session footprint == open sessions. Non-trivial = a violation happened while >=2 sessions were open, or was not the first message of its session; distinct by FNV-64 of the case JSON. Later additions: requests with several differently stamped operations (own, wrong, explicit zero, none); operations of no defined type; scripts on a server that has seen 15-257 (thorough 4097) short-lived sessions; clock steps."
 	c.Assumptions = []string{
 		"while another live session has not negotiated yet, a new SINGLE_PRIMARY session may be accepted or refused with PARAMS_DIFFER_FROM_OTHER_CLIENTS (the property does not decide it)",
 		"an operation without election id must end the RPC with FAILED_PRECONDITION (no reason is specified); a multi-field message with INVALID_ARGUMENT; a zero election id with INVALID_ARGUMENT",
